@@ -6,6 +6,7 @@ import (
 	"strings"
 
 	"github.com/GuanceCloud/platypus/pkg/ast"
+	"github.com/GuanceCloud/platypus/pkg/engine/runtime"
 	"github.com/GuanceCloud/platypus/pkg/errchain"
 	"github.com/GuanceCloud/platypus/pkg/token"
 	"github.com/spf13/cast"
@@ -1093,20 +1094,23 @@ func RunSliceExpr(ctx *Task, expr *ast.SliceExpr) *errchain.PlError {
 			return NewRunError(ctx, errReg.Error(), expr.Step.StartPos())
 		}
 	}
-	var startInt, endInt, stepInt int
 	var length int
+	var str string
+	var list []any
 	switch obj.T { //nolint:exhaustive
 	case ast.String:
-		length = len(obj.V.(string))
+		str, _ = obj.V.(string)
+		length = len(str)
 	case ast.List, ast.DType(ast.TypeSliceExpr):
-		length = len(obj.V.([]any))
+		list, _ = obj.V.([]any)
+		length = len(list)
 	default:
 		return NewRunError(ctx, "invalid obj type", expr.Obj.StartPos())
 	}
 
+	stepInt := 1
 	switch step.T {
 	case ast.Invalid:
-		stepInt = 1
 	case ast.Int:
 		stepInt = cast.ToInt(step.V)
 		if stepInt == 0 {
@@ -1114,97 +1118,52 @@ func RunSliceExpr(ctx *Task, expr *ast.SliceExpr) *errchain.PlError {
 		}
 	default:
 		return NewRunError(ctx, "step type must be integer", expr.Step.StartPos())
-
 	}
 
+	var startInt, endInt *int
 	switch start.T {
 	case ast.Invalid:
-		if stepInt > 0 {
-			startInt = 0
-		} else {
-			startInt = length - 1
-		}
 	case ast.Int:
-		startInt = cast.ToInt(start.V)
-		if startInt < 0 {
-			startInt = length + startInt
-		}
+		v := cast.ToInt(start.V)
+		startInt = &v
 	default:
 		return NewRunError(ctx, "start type must be integer", expr.Start.StartPos())
 	}
 
 	switch end.T {
 	case ast.Invalid:
-		if stepInt > 0 {
-			endInt = length
-		} else {
-			endInt = -1
-		}
 	case ast.Int:
-		endInt = cast.ToInt(end.V)
-		if endInt < 0 {
-			endInt = length + endInt
-		}
+		v := cast.ToInt(end.V)
+		endInt = &v
 	default:
 		return NewRunError(ctx, "end type must be integer", expr.End.StartPos())
-
 	}
 
-	switch obj.T {
-	case ast.String:
-		str := obj.V.(string)
-		if stepInt > 0 {
-			result := ""
-			if startInt < 0 {
-				startInt = 0
+	first, count := runtime.SliceIndices(length, startInt, endInt, stepInt)
+
+	if obj.T == ast.String {
+		var result []byte
+		for n, i := 0, first; n < count; n, i = n+1, i+stepInt {
+			if i < 0 || i >= len(str) {
+				break
 			}
-			for i := startInt; i < endInt && i < length; i += stepInt {
-				result += string(str[i])
-			}
-			ctx.Regs.ReturnAppend(V{result, ast.String})
-			return nil
-		} else {
-			result := ""
-			if startInt > length-1 {
-				startInt = length - 1
-			}
-			for i := startInt; i > endInt && i >= 0; i += stepInt {
-				result += string(str[i])
-			}
-			ctx.Regs.ReturnAppend(V{result, ast.String})
-			return nil
+			result = append(result, str[i])
 		}
-	default:
-		list := obj.V.([]any)
-		if stepInt > 0 {
-			if startInt < 0 {
-				startInt = 0
-			}
-			if endInt > length {
-				endInt = length
-			}
-			result := make([]any, 0, (endInt-startInt+stepInt-1)/stepInt)
-			for i := startInt; i < endInt; i += stepInt {
-				result = append(result, list[i])
-			}
-			ctx.Regs.ReturnAppend(V{result, ast.List})
-			return nil
-		} else {
-			if startInt > length-1 {
-				startInt = length - 1
-			}
-			if endInt < 0 {
-				endInt = -1
-			}
-			result := make([]any, 0, (startInt-endInt-stepInt-1)/(-stepInt))
-			for i := startInt; i > endInt; i += stepInt {
-				result = append(result, list[i])
-			}
-			ctx.Regs.ReturnAppend(V{result, ast.List})
-			return nil
-		}
+		ctx.Regs.ReturnAppend(V{string(result), ast.String})
+		return nil
 	}
+
+	result := []any{}
+	for n, i := 0, first; n < count; n, i = n+1, i+stepInt {
+		if i < 0 || i >= len(list) {
+			break
+		}
+		result = append(result, list[i])
+	}
+	ctx.Regs.ReturnAppend(V{result, ast.List})
+	return nil
 }
+
 func typePromotion(l ast.DType, r ast.DType) ast.DType {
 	if l == ast.Float || r == ast.Float {
 		return ast.Float
